@@ -384,8 +384,13 @@ func (o *Obl) discharge(timeoutS int) {
 }
 
 // splitParts returns sub-obligations, one per top-level conjunct of the goal's consequent.
-func splitParts(o *Obl) []*Obl {
+func splitParts(o *Obl, forceRel bool) []*Obl {
 	if o.Canary || o.ctx == nil {
+		return nil
+	}
+	if o.Kind == "rel" && !*flagSplit && !forceRel {
+		// relational goals carry the context of two runs: the fixed cost per query dominates,
+		// so they are discharged whole
 		return nil
 	}
 	goals := splitGoal(o.Goal, 0)
@@ -434,7 +439,7 @@ func dischargeAll(obls []*Obl, timeoutS, workers int) {
 	var units []*Obl
 	parts := map[*Obl][]*Obl{}
 	for _, o := range obls {
-		if ps := splitParts(o); ps != nil {
+		if ps := splitParts(o, false); ps != nil {
 			parts[o] = ps
 			units = append(units, ps...)
 		} else {
@@ -442,8 +447,32 @@ func dischargeAll(obls []*Obl, timeoutS, workers int) {
 		}
 	}
 	dischargeUnits(units, timeoutS, workers)
+	combineParts(parts)
+	// relational goals are tried whole first (the two-run context is the fixed cost of every
+	// query); the ones left undecided are then split into their conjuncts
+	units = nil
+	parts = map[*Obl][]*Obl{}
+	for _, o := range obls {
+		if o.Kind == "rel" && o.Status == "unknown" && !o.Canary {
+			if ps := splitParts(o, true); ps != nil {
+				parts[o] = ps
+				units = append(units, ps...)
+			}
+		}
+	}
+	if len(units) > 0 {
+		dischargeUnits(units, timeoutS, workers)
+		for o := range parts {
+			o.TimeMS = 0
+		}
+		combineParts(parts)
+	}
+}
+
+func combineParts(parts map[*Obl][]*Obl) {
 	for o, ps := range parts {
 		o.Status = "discharged"
+		o.Detail = ""
 		solvers := map[string]bool{}
 		for _, p := range ps {
 			o.TimeMS += p.TimeMS
@@ -475,6 +504,26 @@ var retrying bool
 
 // noRetry: obligations listed as known findings (undecided by construction) are not re-run.
 var noRetry map[string]bool
+
+// dischargeOnce: one pass, no second chance (auxiliary lemmas: an undecided lemma is simply not used).
+func dischargeOnce(obls []*Obl, timeoutS, workers int) {
+	var wg sync.WaitGroup
+	ch := make(chan *Obl)
+	for w := 0; w < workers; w++ {
+		wg.Add(1)
+		go func() {
+			defer wg.Done()
+			for o := range ch {
+				o.discharge(timeoutS)
+			}
+		}()
+	}
+	for _, o := range obls {
+		ch <- o
+	}
+	close(ch)
+	wg.Wait()
+}
 
 func dischargeUnits(obls []*Obl, timeoutS, workers int) {
 	var wg sync.WaitGroup
